@@ -24,7 +24,7 @@ PROPS = {
               're-open: compare channels/format/byte order/rate (quantised by the container\'s documented unit), N <= F < N+B, read-to-EOF == F, '
               'RIFF/FORM size fields == file size. distinct = hash of the parameters. Second monitor (c04_big_files): the containers with 64-bit or no size fields '
               '(RF64 with and without SFC_RF64_AUTO_DOWNGRADE, W64, CAF, AU, IRCAM, PVF, PAF, NIST) x sample-granular encodings x 1-2 channels grown past 2 GiB and 4 GiB '
-              '(and past 2^31 / 2^32 frames for 1-byte mono) through the real write calls into a sparse virtual-I/O store; frame count, parameters, '
+              '(and past 2^31 / 2^32 frames for 1-byte mono) through the real write calls into a sparse virtual-I/O store, and every other container (32-bit size fields) past 2 GiB only; frame count, parameters, '
               'the audio around offsets 0 / 2^31 / 2^32 / end, and a start-to-end read are compared'),
         assumptions=COMMON_ASSUME + ['block lengths B and rate-field units are harness tables written from the format documents (vh.h, c04)',
                                      'SD2 covered by C14 (path route) only'],
@@ -70,7 +70,8 @@ PROPS = {
         rule=('case = (container in WAV/WAVEX/RF64/AIFF/CAF, encoding, channels, chunk count from a list crossing every capacity step 0..200, '
               'id scheme {distinct, duplicates, 1-4 chars, reserved ids, random}, payload-length scheme {0,1,2,3,4,5,7,8,255,256,1023,4095 | random | fixed | '
               'occasional 20-64 KiB}, strings interleaved, optional chunk after audio). set -> write audio -> close -> re-open -> full iteration, '
-              'iteration by every id, short-buffer gets, absent id, audio compare. distinct = hash of those parameters'),
+              'iteration by every id (every visited chunk must carry the queried id, all chunks set under it must be found in order), short-buffer gets, absent id, audio compare. '
+              'Thorough: every chunk count 0..220 x 20 repetitions. distinct = hash of those parameters'),
         assumptions=COMMON_ASSUME + ['stored size may exceed the set size by up to 3 zero pad bytes (container alignment)',
                                      'standard chunks of the container that appear during full iteration are skipped, custom chunks must appear in order'],
         floor={'quick': 300, 'thorough': 1000},
@@ -89,9 +90,11 @@ PROPS = {
     'C09': dict(
         runs=[dict(src='c09_invalid_calls.c', ldflags='-Wl,--wrap=time,--wrap=gettimeofday')],
         level='exploration',
-        rule=('case = all call sequences of depth 3 from a 28-call alphabet of valid and '
-              'invalid calls (wrong mode, misaligned/negative/zero counts, bad whence, negative/out-of-range seek, unknown command, NULL data, bad string '
-              'type, NULL string, read-only set_string/set_chunk, bad truncate) on read / write / rdwr handles of 12 representative formats; plus 10 kinds '
+        rule=('case = all call sequences of depth 3 (thorough: depth 4 on four formats) from a 41-call alphabet of valid and '
+              'invalid calls (wrong mode, misaligned counts in all four sample types, negative/zero counts, bad whence, negative/out-of-range seek with qualifiers, unknown command, NULL data, bad string '
+              'type, NULL string, read-only set_string/set_chunk, bad truncate, SFC_SET_BROADCAST_INFO/CART/INSTRUMENT/CUE/CHANNEL_MAP with invalid sizes or contents) on read / write / rdwr handles of 12 representative formats. '
+              'Oracles: failure value, error code and text, state digest (positions, frames, settings, metadata digest, file bytes) unchanged; and the TWIN: each history with a failed call is re-run on a fresh handle without '
+              'its failed calls - the remaining calls must return the same values and data and both files must be byte-identical after close. Plus 10 kinds '
               'of failing sf_open* (fd and heap accounting), NULL-handle calls and the sf_error_number table. distinct = hash(format, mode, call sequence)'),
         assumptions=COMMON_ASSUME + ['which calls are invalid, and their failure values, are a harness table written from docs/api.md',
                                      'zero-length reads return before the error state is touched: neither success nor failure is asserted for them'],
@@ -120,8 +123,8 @@ PROPS = {
               '{byte, bit, 32-bit hostile value LE/BE, +-delta, 16-bit value, truncate, chunk-size field after a marker, duplicate/delete a chunk, splice from '
               'another format, insert a 17-77 KB skippable chunk, noise run}, random bytes with/without magic. Routes: virtual I/O (5/8), memfd descriptor (2/8), pipe (1/8). After a successful '
               'open a seeded script of reads (4 types, item/frame), seeks (3 whence), strings, chunk iteration + short-buffer gets, metadata and CALC '
-              'commands runs on exact-size buffers. distinct = hash(input bytes, route)'),
-        assumptions=COMMON_ASSUME + ['termination: I/O-callback budget 64 x (input bytes + 70000) + 4096 (deterministic), the same budget on read()/lseek() calls for the descriptor and pipe routes (--wrap), and a 20 s wall watchdog that must fire twice',
+              'commands runs on exact-size buffers. Plus two SYSTEMATIC families: every chunk of the header (found by walking the RIFF/IFF/CAF/W64/LIST chunk list) x 20 mutations of its size field / id / truncation point, and every even offset of the first 64 header bytes x 14 hostile 32-bit values. distinct = hash(input bytes, route)'),
+        assumptions=COMMON_ASSUME + ['termination: I/O-callback budget 64 x (input bytes + 70000) + 4096 (deterministic), the same budget on read()/lseek() calls for the descriptor and pipe routes (--wrap), a 6 s CPU-time watchdog per input (parsers that spin without I/O) and a 20 s wall watchdog that must fire twice',
                                      'UBSan shift/signed-overflow/alignment checks are off (see DESIGN section 3); the ALAC mShiftBuffer union idiom is filtered',
                                      'inputs are derived from 300-frame files; multi-megabyte inputs are not explored'],
         floor={'quick': 5000, 'thorough': 50000},
@@ -146,7 +149,7 @@ PROPS = {
         rule=('case = one accounted scenario: (A) valid write/read/rdwr histories on every format x {vio, path} x metadata level {none, all strings, '
               'strings+bext+cart+cues+instrument+channel map+PEAK+25 chunks+dither} x {no I/O, 700 frames} x extra failing calls; (B) the same file truncated at '
               'every header byte (then coarser) opened for read / rdwr; (C) 150 / 1500 structure-aware mutations (the C03 mutators incl. appended chunks) per format opened for read and read/write; (D) single-shot and persistent I/O faults at callbacks '
-              '1..40 x 6 kinds while reading, 3 kinds while writing; (E) SD2 data fork with 1500 truncated/mutated resource forks. Before/after each scenario: live '
+              '1..40 x 6 kinds while reading, 3 kinds while writing; (C2/C3) the systematic chunk-list and header-field mutations of C03 on two metadata profiles, read and read/write; (E) SD2 data fork with 1500 truncated/mutated resource forks. Before/after each scenario: live '
               'heap bytes, /proc/self/fd, private TMPDIR and scratch listing; a difference must repeat on an immediate re-run. distinct = hash(scenario parameters or input bytes)'),
         assumptions=COMMON_ASSUME + ['heap accounting uses the ASan allocator statistics; the write target is a pre-reserved memory file so the harness itself allocates nothing inside a scenario',
                                      'allocation failure inside the library is not injected'],
@@ -160,7 +163,7 @@ PROPS = {
               'length+1000, length/2, tell+7}, single-shot | persistent); inside a case the fault-free run counts its K virtual-I/O callbacks and the workload is '
               're-run with the fault at EVERY callback 1..K (complete enumeration of fault points for that workload). Quick: one representative per '
               'container and per codec family; thorough: every format. Plus the descriptor route: /dev/full, descriptor closed behind the library, EINTR/EIO '
-              'injected in read()/write(). distinct = hash(format, workload, type, fault point, kind, persistence); evidence counts the fault points that actually fired'),
+              'injected in read()/write(). Thorough: mono and stereo, and 6 double faults (a second single-shot fault of a random kind at a later callback) per single-shot fault point. distinct = hash(format, workload, type, fault point, kind, persistence); evidence counts the fault points that actually fired'),
         assumptions=COMMON_ASSUME + ['faults stay inside the SF_VIRTUAL_IO contract (results in [0, asked]; seek returns -1; length/tell answers are wrong but non-negative)',
                                      '"bytes accepted before the failure stay uncorrupted" is not separately asserted on the virtual-I/O route (the harness owns the store and accepted nothing after a persistent fault); it is observed on the descriptor route only through the OS',
                                      'termination = virtual-I/O callback budget (logical clock) plus a wall watchdog that must fire twice'],
@@ -176,7 +179,7 @@ PROPS = {
               'frame count in [whole blocks written, frames written] and decoded prefix are compared with the finished file, and the finished file with a run '
               'without updates. distinct = hash(format, ch, type, mode, pattern, frames written at the crash point). Second monitor (c11_big_files): the same crash-point '
               'snapshots while RF64 (with and without auto-downgrade), W64, CAF, AU, IRCAM, PVF, PAF, NIST files grow past 2 GiB and 4 GiB through the real write calls '
-              '(sparse virtual-I/O store): ~15 crash points inside each of the islands straddling file offsets 2^31 and 2^32, where 32-bit size fields, the RIFF->RF64 '
+              '(sparse virtual-I/O store; the containers with 32-bit size fields past 2 GiB only): ~15 crash points inside each of the islands straddling file offsets 2^31 and 2^32, where 32-bit size fields, the RIFF->RF64 '
               'switch and the ds64 chunk come into play'),
         assumptions=COMMON_ASSUME + ['crash = loss of the writer process right after the call returned: the virtual-I/O store is exactly what the library handed to the I/O layer',
                                      'block codecs may report any count between the whole blocks written and the frames written'],
@@ -213,7 +216,7 @@ PROPS = {
         rule=('part A: case = (PEAK container in WAV/WAVEX/AIFF/CAF/RF64, float|double, channels in {1,2,5,8,3}, write type in 4, sequence in {max at first frame, last '
               'frame, at the 2048-item staging boundary, middle, tied maxima, silence}, partition in 6); after re-open SFC_GET_SIGNAL_MAX / MAX_ALL_CHANNELS and the PEAK '
               'chunk parsed by the harness (value and FIRST position per channel) are compared with maxima computed by the harness in the file precision. the whole cross product in both tiers (thorough adds more random lengths). part B: every seekable format x {1,2} channels: the four SFC_CALC_* commands at positions {0, F/2, F} under 4 '
-              'normalisation profiles vs maxima from an independent handle; position, norm flags and the next frame read must be unchanged. distinct = hash(parameters)'),
+              'normalisation profiles vs maxima from an independent handle; position, norm flags and the next frame read (vs a twin handle without the command) must be unchanged. 8 / 60 repetitions with fresh random data per point. distinct = hash(parameters, PRNG state)'),
         assumptions=COMMON_ASSUME + ['true maxima of lossy codecs are taken from a full sf_readf_double on a second handle (its conversion rules are C02)',
                                      'PEAK chunk layout (WAV/AIFF: version, timestamp, {float32 value, uint32 position} per channel; CAF: edit count, {float32, uint64}) is coded in the harness'],
         floor={'quick': 300, 'thorough': 1000},
@@ -253,7 +256,7 @@ PROPS = {
         rule=('case = (format, channels, variant): one generated file (16 variants = subsets of {strings, 52-82 KB JUNK chunk spliced in before the audio, truncated tail, damaged '
               'header byte}) opened through virtual I/O (reference), path, descriptor with close_desc 0 and 1, descriptor positioned at offsets 1/7/4096 inside a '
               'file with leading and trailing junk (WAV, WAVEX, AIFF, AU) and a pre-filled pipe (WAV, AIFF, AU sample-granular): SF_INFO, samples in 4 types, strings '
-              'and open outcome compared; fcntl(F_GETFD) and /proc/self/fd before/after for close_desc. Plus per format the same write script through path, '
+              'open outcome and six seek probes (SET/END/CUR) compared; fcntl(F_GETFD) and /proc/self/fd before/after for close_desc; 10 kinds of refused sf_open_fd x close_desc 0/1 (the caller keeps its descriptor). Plus per format the same write script through path, '
               'descriptor and virtual I/O (bytes compared; SVX/MPC2K length only) and an embedded write behind existing content. distinct = hash(format, ch, variant, PRNG state)'),
         assumptions=COMMON_ASSUME + ['SD2 is path-only (resource fork) and is exercised by C16/C19',
                                      'pipe comparison covers the samples only: frame counts are unknown on a pipe'],
